@@ -69,13 +69,14 @@ PROPS = {
                    'or merged subsume flag differs from the stored one and then writes the whole row: incoming keys, mval, INCOMING timestamp, '
                    'max of the flags; (c) min/max are ACI so the fold over writes is order independent; (d) (unit insert) the real SortedWritesTable::serial_insert applies the merge '
                    'callback on EVERY collision of the serial path: the final table is the initial one with each pending row applied in turn (chain/applied): key absent -> the row is stored; '
-                   'key present -> the stored row is replaced by the MERGED row iff the callback reports a change, and nothing else changes. Whether the other three paths apply the callback '
-                   '(parallel insert, staged outputs, rebuild re-insertion) is NOT covered: assumed.',
+                   'key present -> the stored row is replaced by the MERGED row iff the callback reports a change, and nothing else changes; (e) StagedOutputs::insert (the in-batch staging path used by the parallel insert) does the same for one row, '
+                   'through the hashbrown entry API, and keeps n_stale equal to the number of superseded rows. parallel_insert itself (which decides what to do with the staged batches; see F2) is NOT covered: assumed. '
+                   'Rebuild re-insertion stages remove + insert and so goes through these same paths at the next merge (the staging in table/rebuild.rs is not under contract).',
         level_note='Trusted: ExecutionState::{stage_insert, call_external_func, read_counter} as ghost logs; external functions and '
                    'TableAction::lookup_or_insert as functions of their arguments; SchemaMath::write_table_row (generic impl-Trait code; assumed contract); '
                    'NumericId axioms; core::cmp::min/max; rewrites R-LIFT, R-MAPCOLLECT, R-UNWRAPORELSE, R-THEN, R-BOOLOP, R-ASSERT (panic = divergence). '
                    'Known unverified defect F2 (parallel_insert drops the merged row) lies in the assumed part; see DESIGN.md section 8.',
-        assumptions=['SortedWritesTable collision paths other than serial_insert (parallel_insert, StagedOutputs::insert, rebuild) are assumed to apply the callback; F2 shows parallel_insert does not',
+        assumptions=['parallel_insert (rayon, unsafe row writers) is assumed to apply what StagedOutputs::insert staged; F2 shows it does not when a staged row collides with a stored one',
                      'serial_insert is proved over assumed contracts for the row store (Rows::get_row/add_row/set_stale), the sharded hash table (get_entry_mut, insert_unique; shards viewed as one map) and the dyn Fn merge callback as a pure function (mch/mo)',
                      'translate_expr_to_mergefn / MergeFn::resolve not covered'],
     ),
